@@ -630,6 +630,15 @@ class EscapeAnalysis:
                             break
                         if _guards(v_):
                             guarded = True
+                if isinstance(q, ast.BoolOp) and isinstance(q.op, ast.Or):
+                    # `not text or text[0] == "/"` / `len(text) == 0 or ...`: an earlier operand of the `or` that is true for the empty text
+                    for v_ in q.values:
+                        if v_ is child or any(v_ is a_ for a_ in ast.walk(child)):
+                            break
+                        if isinstance(v_, ast.UnaryOp) and isinstance(v_.op, ast.Not) and _guards(v_.operand):
+                            guarded = True
+                        elif isinstance(v_, ast.Compare) and len(v_.ops) == 1 and isinstance(v_.ops[0], (ast.Eq, ast.Lt, ast.LtE)) and _guards(v_.left):
+                            guarded = True
                 child, q = q, getattr(q, "_parent", None)
             if not guarded:
                 self.fact_points += 1
